@@ -95,7 +95,7 @@ impl Num {
 
     pub(crate) fn length(&self) -> Self {
         match self {
-            Self::Int(i) => Self::Int(i.abs()),
+            Self::Int(i) => int_or_big(i.checked_abs(), [*i], |[i]| -i),
             Self::BigInt(i) => match i.sign() {
                 Sign::Plus | Sign::NoSign => Self::BigInt(i.clone()),
                 Sign::Minus => Self::BigInt(BigInt::from(i.magnitude().clone()).into()),
